@@ -96,6 +96,63 @@ def strip_table(P: Program, rep: Report, rule: str):
 
 
 
+def reparse_enclosed(P, rep, rule, acls, encl_f):
+    from ..splitdom import Mark
+    from ..splitter_ref import Ref, start as rstart, end as rend
+    from ..symdom import Hole, SymHooks, Template
+    n = 0
+    for default in ("{", '"'):
+        def one(ctx):
+            it = driver_interp(P, ctx, "middlewares.enclosing", {}, SymHooks())
+            try:
+                mw = it.construct(acls, [], {"reuse_previous_enclosing": False, "enclose_integers": True, "default_enclosing": default})
+                return call(it, mw, "_enclose", Hole("v"), None, apply_int_rule=False)
+            except (Raised, Unsupported) as e:
+                return e
+        outs = [o for _, o in explore(one, 10)]
+        t = outs[0]
+        if not (isinstance(t, Template) and len(t.pieces) == 3 and isinstance(t.pieces[0], str) and isinstance(t.pieces[2], str) and t.pieces[1] == Hole("v")):
+            rep.fail(rule, f"enclose-shape:{default}", encl_f.loc, f"_enclose(value, default {default!r}) yields {t!r}, not <opening><value><closing>")
+            continue
+        op, cl = t.pieces[0], t.pieces[2]
+        bad = None
+        for L in range(0, 6):
+            for seq in itertools.product(["{", "}", '"', ",", "="], repeat=L):
+                d = 0
+                ok = True
+                for c in seq:
+                    if c == "{":
+                        d += 1
+                    elif c == "}":
+                        d -= 1
+                        if d < 0:
+                            ok = False
+                            break
+                    elif c == '"' and d == 0 and default == '"':
+                        ok = False
+                        break
+                if not ok or d != 0:
+                    continue
+                n += 1
+                toks = ["@x", "{", ",", "="] + list(op) + list(seq) + list(cl) + ["}"]
+                ref = Ref()
+                ev = []
+                marks = []
+                for i, tk in enumerate(toks):
+                    m = Mark(tk, f"m{i}", i)
+                    marks.append(m)
+                    ev.extend(ref.feed(m))
+                ev.extend(ref.eof())
+                blocks = [e for e in ev if e[0] != "implicit"]
+                first, last = marks[4], marks[4 + len(op) + len(seq) + len(cl) - 1]
+                good = len(blocks) == 1 and blocks[0][0] == "entry" and len(blocks[0][1]["fields"]) == 1 and \
+                    blocks[0][1]["fields"][0]["value"][0] == rend(marks[3]) and blocks[0][1]["fields"][0]["value"][1] == rstart(marks[-1])
+                if not good and bad is None:
+                    bad = f"value {''.join(seq)!r} enclosed as {op}{''.join(seq)}{cl} re-parses as {[(b[0], len(b[1].get('fields', []))) for b in blocks]}, not as one field"
+        rep.check(bad is None, rule, f"reparse:{default}", encl_f.loc, bad or "")
+    rep.count("reparse_values", n)
+
+
 def run(P: Program, rep: Report):
     rep.not_decided += ["whether the outer delimiters are a *matching* pair (`{a} # {b}` is treated as one pair: no brace matching is performed)",
                         "re-parse of the enclosed text (see C05)"]
@@ -198,6 +255,12 @@ def run(P: Program, rep: Report):
         rep.fail("C10.R1", f"round-trip:{k}", rcls.loc, msg)
     if not badt:
         rep.ok("C10.R1", f"round-trip:{nrt}-values", rcls.loc)
+
+    rep.rule("C10.R5", "re-parse of enclosed values: for every brace-balanced sequence of delimiter marks up to length 5 (for the quote "
+                       "default: without a bare quote outside braces) the text `name = <default enclosing><value><closing>` is, by the "
+                       "reference transducer the splitter is bisimilar to (C02.R2), exactly one field whose value spans the whole "
+                       "enclosed text; the delimiters are those _enclose actually emits")
+    reparse_enclosed(P, rep, "C10.R5", acls, encl_f)
 
     rep.rule("C10.R4", "numeric-field rule at the call sites: entry fields listed in the numeric-field constant (and only those) "
                        "get the integer rule; @string values get the module flag; the constructor rejects other defaults")
